@@ -22,6 +22,8 @@ pub fn corpora(tier: Tier) -> Vec<Corpus> {
         Corpus { name: "all-unknown".into(), lines: vec![l(true, "a b a"), l(true, "a b")], tag_dict: vec![] },
         Corpus { name: "tag-dict-only".into(), lines: vec![l(false, "a b"), l(false, "ab a")], tag_dict: vec!["c/D/E".into(), "あ/F".into()] },
         Corpus { name: "tag-dict-and-corpus".into(), lines: vec![l(false, "a/X b"), l(false, "a/Y ab/Z")], tag_dict: vec!["a/D".into(), "q/F/G".into()] },
+        // sentences longer than the large windows, with characters that occur only sentence-finally / -initially
+        Corpus { name: "long-final-only".into(), lines: vec![l(false, "あb a b ab a ba b ab a b1"), l(false, "あ ab ab a b a ab b a/X ab1"), l(false, "a/Y 1")], tag_dict: vec![] },
     ];
     if tier == Tier::Thorough {
         v.push(Corpus { name: "long-tagged".into(), lines: vec![l(false, "abc/T ab/S/u c/T"), l(false, "c/V abc/T a ab/S/w"), l(true, "a-b-c/T|a b")], tag_dict: vec!["abc/T".into()] });
@@ -151,15 +153,16 @@ pub fn configs(tier: Tier) -> Vec<Config> {
             }
         }
     }
-    if tier == Tier::Thorough {
-        // extremes on one axis at a time
-        for big in [8u8, 255] {
-            for axis in 0..4 {
-                let mut v = [2u8, 2, 2, 2];
-                v[axis] = big;
-                out.push(Config { charw: v[0], charn: v[1], typew: v[2], typen: v[3], dict: vec!["ab".into()], bucket: 2, solver: 1 });
-            }
+    // one axis at a time: sizes around the predictor's fixed-length weight representation (8 slots) in both
+    // tiers, the u8 extremes in thorough; and both windows large together
+    for big in tier.pick(vec![7u8, 8, 9], vec![7u8, 8, 9, 16, 128, 255]) {
+        for axis in 0..4 {
+            let mut v = [2u8, 2, 2, 2];
+            v[axis] = big;
+            out.push(Config { charw: v[0], charn: v[1], typew: v[2], typen: v[3], dict: vec!["ab".into()], bucket: 2, solver: 1 });
         }
+        out.push(Config { charw: big, charn: 1, typew: big, typen: 1, dict: vec![], bucket: 1, solver: 5 });
+        out.push(Config { charw: big, charn: 3, typew: big, typen: 3, dict: vec![], bucket: 1, solver: 1 });
     }
     out
 }
